@@ -56,7 +56,8 @@ impl Decoder for ZmqCodec {
 
     fn decode(&mut self, src: &mut BytesMut) -> Result<Option<Self::Item>, Self::Error> {
         if src.len() < self.waiting_for {
-            src.reserve(self.waiting_for - src.len());
+            // Do not reserve `waiting_for` bytes up front: for a frame body that value comes
+            // straight from the wire, and the framed reader grows the buffer as data arrives.
             return Ok(None);
         }
         match self.state {
